@@ -192,6 +192,30 @@ pub(crate) mod verif_data {
             }
         };
     }
+    //@ob name=C11.probe.tag props=C11 tier=thorough strength=bounded bound="probe" fns=none timeout=60 cutdrop=2
+    //@ desc="diagnostic probe"
+    #[cfg_attr(kani, kani::proof)]
+    #[cfg_attr(kani, kani::unwind(8))]
+    pub(crate) fn k_probe_tag() {
+        let tv = MD::new(Value::Number(serde_json::Number::from(kani::any::<u64>())));
+        let mut args: Vec<&Value> = Vec::with_capacity(2);
+        args.push(&*tv);
+        let r: &Value = args[0];
+        fn inner(r: &Value) -> Result<u64, Error> {
+            let threshold = match r {
+                Value::Number(n) => n.as_u64(),
+                _ => None,
+            }
+            .ok_or_else(|| Error::InvalidArgument {
+                value: r.clone(),
+                operation: "missing_some".into(),
+                reason: "missing_some threshold must be a valid, positive integer".into(),
+            })?;
+            Ok(threshold)
+        }
+        let x = MD::new(inner(r));
+        assert!(x.is_ok());
+    }
 //@GENERATED-VAR
     //@ob name=C11.var.0.str.p0 harness=k_c11_var_0_str_p0 props=C11,C04,C01 tier=quick strength=bounded bound="0 operands; key kind str (integer keys: every i64); lookup present-pattern 0b0; data, found value and default symbolic numbers" fns=op::data::var stubs=5 timeout=300 cutdrop=1 group=medium
     //@ desc="var: operand-less / null / \"\" => entire data; present value (whatever it is) wins over the default; absent => the default AS GIVEN (the parser is never applied to it: C04) else null; bad key kinds => error; exactly one lookup against the data (lookup by contract)"
@@ -350,7 +374,8 @@ pub(crate) mod verif_data {
             0 => (vec![label(b'a'), label(b'b')], [b'a', b'b', 0], 2),
             1 => (vec![label(b'a'), label(b'a')], [b'a', b'a', 0], 2),
             2 => (vec![label(b'a'), label(b'b'), label(b'a')], [b'a', b'b', b'a'], 3),
-            3 => (vec![], [0, 0, 0], 0),
+            // (an allocated empty Vec: iterating a dangling-pointer `vec![]` is not decided statically by CBMC)
+            3 => (Vec::with_capacity(1), [0, 0, 0], 0),
             _ => (vec![label(b'a'), Value::Null, label(b'b')], [b'a', 0, b'b'], 3),
         };
         let kv = MD::new(Value::Array(keys));
